@@ -124,6 +124,11 @@ func (g *srcGen) str(src string) string {
 			if _, set := g.vars[nm]; set && !strings.Contains(g.vars[nm], "${") {
 				g.vars[nm] = validStr(r, g.s, "X")
 			}
+			if src == "F1" || src == "E1" {
+				// a second option is shared with other settings (HoneycombAPIKey): keep it valid, or the
+				// start-up is refused on behalf of a setting that is not under test
+				g.vars[nm] = validStr(r, g.s, "X")
+			}
 			return "${" + nm + "}"
 		}
 		return validStr(r, g.s, src)
@@ -296,6 +301,9 @@ func flagTok(v []string) string {
 	return listVal(v).tok()
 }
 
+// refsPct: share of string values that carry ${…} syntax when the setting has options (thorough: more)
+var refsPct = 20
+
 // genLoad builds one load op for setting s with the given source combination
 // (bit 8 flag, 4 env, 2 file 1, 1 file 2).
 func genLoad(r *kit.Rng, s *setting, combo int) string {
@@ -304,7 +312,7 @@ func genLoad(r *kit.Rng, s *setting, combo int) string {
 	hasFlag, hasEnv, hasA, hasB := combo&8 != 0, combo&4 != 0, combo&2 != 0, combo&1 != 0
 	// which expansion variables exist
 	setPct := 60
-	g.useRefs = 20
+	g.useRefs = refsPct
 	if len(s.Opts) == 0 {
 		// no flag / environment variable: the two bits choose the ${VAR} regime instead
 		g.useRefs = 0
